@@ -14,6 +14,7 @@ func runC15(c *Ctx) {
 	c.Clause("C15.2 outgoing streams: openStream only beyond nextStream<=maxStream after the latest lock acquisition, IDs advance by 4 in openStream only, STREAMS_BLOCKED once per limit, FIFO queue discipline")
 	c.Clause("C15.3 direction/initiator dispatch: each per-type map is consulted only for IDs of its initiator; never-opened local streams raise STREAM_STATE_ERROR")
 	c.Clause("C15.5 AcceptStream advances nextStreamToAccept by 4 exactly once per returned stream")
+	c.Clause("C15.10 every Config is passed through validateConfig (stream limits clipped to 2^60) before populateConfig, the per-client Config of GetConfigForClient included")
 	c.Clause("C15.8 the accept wake-up channel (signalled with a non-blocking send) has room for its token; C15.9 every refused OpenStream and every queued OpenStreamSync calls maybeSendBlockedFrame unconditionally")
 	c.Clause("C15.6 the stream maps' state is accessed under their mutex; C15.7 AcceptStream re-signals newStreamChan when the next stream is already open (one token, several waiters)")
 	c.Clause("all rules are evaluated for every instantiation of the generic maps")
@@ -27,6 +28,7 @@ func runC15(c *Ctx) {
 	c.rule("C15.7", func() { c15AcceptPassesWakeupOn(c) })
 	c.rule("C15.8", func() { c15SignalChannelsBuffered(c) })
 	c.rule("C15.9", func() { c15BlockedFrameForEveryBlockedOpen(c) })
+	c.rule("C15.10", func() { configValidatedBeforeUse(c, "C15.10") })
 }
 
 // callsFieldFunc: call of a function value loaded from the given struct field.
